@@ -18,9 +18,12 @@ def groupOk (g : RgMeta) : Bool :=
   decide (g.numRows < 9223372036854775808) && decide (g.fileOffset < 9223372036854775808) &&
   decide (g.totalCompressed < 9223372036854775808) && decide (g.ordinal ≤ 32767)
 
-/-- the sizes of a footer fit the C types and the parser's limits; names are C strings -/
+/-- the sizes of a footer fit the C types and the parser's limits; names are C strings; the parameters
+of a column's logical type are what the C struct can hold (`int32_t` scale / precision, `int8_t`
+bit_width) -/
 def footerOk (f : FooterData) : Bool :=
-  decide (f.cols.length < 10000) && f.cols.all (fun c => isStr (strBytes c.name) && decide (c.typeLen < 2147483648)) &&
+  decide (f.cols.length < 10000) &&
+  f.cols.all (fun c => isStr (strBytes c.name) && decide (c.typeLen < 2147483648) && okOpt LogicalType.wf c.logical) &&
   isStr (strBytes f.createdBy) && decide (f.numRows < 9223372036854775808) &&
   f.rowGroups.all groupOk && decide (f.rowGroups.length ≤ 100000)
 
@@ -30,6 +33,20 @@ theorem nat_norm (n : Nat) : (if (0 : Int) < (n : Int) then (n : Int) else 0) = 
   split <;> omega
 
 theorem ptype_code_le (t : PType) : t.code ≤ 7 := by cases t <;> decide
+
+theorem colLogical_norm (c : Col) : normLogical (colLogical c) = colLogical c := by
+  unfold colLogical
+  cases c.logical with
+  | none => rfl
+  | some lt => cases lt <;> rfl
+
+theorem colLogical_wf (c : Col) (h : okOpt LogicalType.wf c.logical = true) : okOpt LogicalType.wf (colLogical c) = true := by
+  unfold colLogical
+  cases hl : c.logical with
+  | none => rfl
+  | some lt =>
+    rw [hl] at h
+    cases lt <;> first | rfl | exact h
 theorem rep_code_le (r : Rep) : r.code ≤ 2 := by cases r <;> decide
 
 theorem fileMetaData_wf (f : FooterData) (h : footerOk f = true) : (fileMetaData f).wf = true := by
@@ -44,8 +61,10 @@ theorem fileMetaData_wf (f : FooterData) (h : footerOk f = true) : (fileMetaData
     have := h2 c hc
     have hp := ptype_code_le c.ptype
     have hr := rep_code_le c.rep
-    simp [SchemaElement.wf, okOpt, this.1, isI32]
-    omega
+    have hl := colLogical_wf c this.2
+    simp [SchemaElement.wf, schemaElementOfCol, okOpt, this.1.1, isI32]
+    refine ⟨by omega, ?_⟩
+    simpa [okOpt] using hl
   · simp [maxSchemaElements]; omega
   · simp [isI64]; omega
   · intro g hg
@@ -80,7 +99,10 @@ theorem fileMetaData_norm (f : FooterData) : (fileMetaData f).norm = fileMetaDat
       intro h; simp [h]
     · apply List.map_congr_left
       intro c _
-      simp [SchemaElement.norm, normLogical]
+      show SchemaElement.norm (schemaElementOfCol c) = schemaElementOfCol c
+      unfold SchemaElement.norm schemaElementOfCol
+      simp only [colLogical_norm]
+      simp
       intro h; simp [h]
   · apply List.map_congr_left
     intro g _
